@@ -170,6 +170,41 @@ def _term_shapes(tier):
             and T.count_leaves(s) <= 4]
 
 
+def run_cmdgrid(tier):
+    """Auxiliary (concrete): every declaration/definition command with every
+    combination of argument shapes up to the bound goes through theory
+    detection, collect_information, counting and rendering."""
+    import itertools
+    import time
+    t0 = time.time()
+    n = 6 if tier == 'quick' else 7
+    cmds = ['declare-datatypes', 'declare-datatype', 'define-fun',
+            'declare-fun', 'declare-const', 'define-funs-rec', 'define-sort',
+            'declare-sort', 'define-fun-rec', 'let', 'forall', 'assert']
+    shapes = T.shapes_up_to(n - 1)
+    cnt = 0
+    bad = None
+    for k in range(0, 4):
+        for args in itertools.product(shapes, repeat=k):
+            if sum(T.count_shape_nodes(a) for a in args) > n - 2:
+                continue
+            shape = ('L',) + tuple(args)
+            for cmd in cmds:
+                leaves = [cmd] + ['x'] * (T.count_leaves(shape) - 1)
+                cnt += 1
+                r = mainproc_body(shape, leaves)
+                if r and bad is None:
+                    bad = ({'cmd': cmd, 'shape': T.shape_str(shape)}, r)
+    return {'status': 'VIOLATED' if bad else 'CONFIRMED',
+            'cex': bad[0] if bad else None,
+            'exc': {'type': 'Violation', 'msg': bad[1]} if bad else None,
+            'paths': cnt, 'paths_ok': cnt,
+            'samples': [{'cmd': 'declare-datatypes', 'shape': '(L(()())(()))'}],
+            'solver_checks': 0, 'solver_seconds': 0.0,
+            'wall_s': round(time.time() - t0, 2),
+            'note': 'concrete grid of command shapes (auxiliary)'}
+
+
 def _cmd_shapes(tier):
     n = bounds(tier)['tree_nodes']
     return [s for s in T.shapes_up_to(n)
@@ -402,11 +437,21 @@ def usage_body(c):
 
     def isfile(p):
         asked.append(p)
-        return c['in_isfile'] if p == 'in.smt2' else c['cmd_isfile']
+        if p == 'in.smt2':
+            return c['in_isfile']
+        if p.startswith('/usr/bin/'):
+            return bool(c.get('on_path'))
+        return c['cmd_isfile']
 
     def access(p, mode):
+        if p.startswith('/usr/bin/'):
+            return bool(c.get('on_path'))
         return c['cmd_exec']
 
+    import shutil
+    real_which = shutil.which
+    shutil.which = lambda name, *a, **k: ('/usr/bin/' + name
+                                         if c.get('on_path') else None)
     real = (os.path.isfile, os.access)
     os.path.isfile, os.access = isfile, access
     err = None
@@ -419,11 +464,43 @@ def usage_body(c):
             return f'check_options raised {type(e).__name__}: {e}'
     finally:
         os.path.isfile, os.access = real
+        shutil.which = real_which
+    if err is None:
+        # an accepted command line must be usable: the command is copied
+        # into the temporary directory next
+        import shutil
+        from ddsmt import tmpfiles
+        copied = []
+
+        def fake_copy(src, dst):
+            if not ((src == 'solver' and c['cmd_isfile'])
+                    or (src.startswith('/usr/bin/') and c.get('on_path'))):
+                raise FileNotFoundError(src)
+            copied.append(src)
+
+        real_copy, real_isfile2 = shutil.copy, os.path.isfile
+        shutil.copy = fake_copy
+        try:
+            try:
+                tmpfiles.init()
+                tmpfiles.copy_binaries()
+            except Exception as e:
+                return (f'check_options accepted the command line but the '
+                        f'command cannot be used: {type(e).__name__}: {e}')
+        finally:
+            shutil.copy = real_copy
+            try:
+                getattr(tmpfiles, '__TMPDIR').cleanup()
+            except Exception:
+                pass
     ok = c['in_isfile'] and c['ncmd'] >= 1 and c['cmd_isfile'] \
         and c['cmd_exec']
     if ok and err is not None:
         return f'valid invocation rejected: {err}'
     if not ok:
+        if err is None and c.get('on_path') and c['in_isfile'] \
+                and c['ncmd'] >= 1:
+            return None     # resolved through PATH and shown to be usable
         if err is None:
             return 'usage error not reported'
         if '\n' in err or not err.startswith('[ddsmt] Error:'):
@@ -432,7 +509,8 @@ def usage_body(c):
 
 
 def make_usage():
-    def h(in_isfile: bool, cmd_isfile: bool, cmd_exec: bool, ncmd: int):
+    def h(in_isfile: bool, cmd_isfile: bool, cmd_exec: bool, ncmd: int,
+          on_path: bool):
         assume(0 <= ncmd <= 2)
         r = usage_body(dict(locals()))
         if r:
@@ -491,6 +569,8 @@ def partitions(tier):
                           'reset': _reset, 'budget_s': bud,
                           'bounds': {'shape': T.shape_str(sh),
                                      'symbolic_leaf': which}})
+    parts.append({'name': 'cmdgrid', 'kind': 'native',
+                  'run': (lambda: run_cmdgrid(tier)), 'budget_s': 600})
     for st in ('ddmin', 'hierarchical'):
         parts.append({'name': f'isolate_{st}', 'kind': 'native',
                       'run': (lambda st=st: run_isolate(st)),
@@ -524,6 +604,13 @@ def replay(part, cex):
             if n > 2:
                 leaves[-1] = '3'
             return letterm_body(shape, leaves)
+        if part == 'cmdgrid':
+            shape = None
+            for sh in T.shapes_up_to(7):
+                if T.shape_str(sh) == cex['shape']:
+                    shape = sh
+            leaves = [cex['cmd']] + ['x'] * (T.count_leaves(shape) - 1)
+            return mainproc_body(shape, leaves)
         if part.startswith('isolate'):
             return isolate_body(cex['site'], cex['exc_i'], cex['victim_i'],
                                 cex['glob'], part.split('_')[1])
